@@ -121,6 +121,65 @@ func affectedFuncs(e *Engine, ch []changedLine) (keys []string, unowned int) {
 	return keys, unowned
 }
 
+// contractedCallersOf returns the functions under contract whose bodies (with the uncontracted helpers they
+// inline) contain a static call of the function with key target: the `call.<target>.requires` obligations
+// of target's preconditions are generated there.
+func contractedCallersOf(e *Engine, target string) []string {
+	var keys []string
+	for _, k := range matchFuncs(e, ".") {
+		fn := e.funcs[k]
+		if fn == nil || k == target {
+			continue
+		}
+		if c := e.contracts.Funcs[k]; c == nil || c.Extern || c.Assumed {
+			continue
+		}
+		seen := map[*ssa.Function]bool{}
+		var reach func(f *ssa.Function, depth int) bool
+		reach = func(f *ssa.Function, depth int) bool {
+			if f == nil || seen[f] || depth > 5 {
+				return false
+			}
+			seen[f] = true
+			for _, b := range f.Blocks {
+				for _, ins := range b.Instrs {
+					var callee *ssa.Function
+					switch x := ins.(type) {
+					case *ssa.Call:
+						callee = x.Call.StaticCallee()
+					case *ssa.Defer:
+						callee = x.Call.StaticCallee()
+					case *ssa.MakeClosure:
+						callee, _ = x.Fn.(*ssa.Function)
+					}
+					if callee == nil || !e.inModule(callee) {
+						continue
+					}
+					if funcKey(callee) == target {
+						return true
+					}
+					if c := e.contractFor(funcKey(callee)); c != nil && f != callee {
+						continue
+					}
+					if reach(callee, depth+1) {
+						return true
+					}
+				}
+			}
+			for _, an := range f.AnonFuncs {
+				if reach(an, depth+1) {
+					return true
+				}
+			}
+			return false
+		}
+		if reach(fn, 0) {
+			keys = append(keys, k)
+		}
+	}
+	return keys
+}
+
 func funcKey(f *ssa.Function) string {
 	if f == nil {
 		return ""
